@@ -1406,6 +1406,12 @@ class Authenticated(BaseClientHandler):
                 raise No("There are pending untagged responses")
 
         async with cmd.ready_and_okay(self.mbox):
+            # While we were waiting for our turn another client may have
+            # expunged messages, which changes the message sequence numbers
+            # this client has not been told about yet.
+            #
+            if not cmd.uid_command and self.pending_expunges():
+                raise No("There are pending untagged responses")
             try:
                 results = await self.mbox.search(
                     cmd.search_key, cmd.uid_command, cmd.timeout_cm
@@ -1479,6 +1485,12 @@ class Authenticated(BaseClientHandler):
 
         try:
             async with cmd.ready_and_okay(self.mbox):
+                # While we were waiting for our turn another client may have
+                # expunged messages, which changes the message sequence
+                # numbers this client has not been told about yet.
+                #
+                if not cmd.uid_command and self.pending_expunges():
+                    raise No("There are pending EXPUNGEs.")
                 msg_set = (
                     sorted(cmd.msg_set_as_set) if cmd.msg_set_as_set else []
                 )
@@ -1571,6 +1583,12 @@ class Authenticated(BaseClientHandler):
         #
         try:
             async with cmd.ready_and_okay(self.mbox):
+                # While we were waiting for our turn another client may have
+                # expunged messages, which changes the message sequence
+                # numbers this client has not been told about yet.
+                #
+                if not cmd.uid_command and self.pending_expunges():
+                    raise No("There are pending EXPUNGEs.")
                 msg_set = (
                     sorted(cmd.msg_set_as_set) if cmd.msg_set_as_set else []
                 )
